@@ -36,7 +36,17 @@ func staticFault(r *core.Run, w *world.World, raw *[]byte, pool **x509.CertPool,
 		return w.A.PlatSpec
 	}
 	rebuild := func() { w.Build(false); *raw = w.Quote.Bytes() }
-	switch k := t.Draw(35); k {
+	switch k := t.Draw(37); k {
+	// a service that answers a route only the second time it is asked (the first request of every verification
+	// on that route is reset): met identically by every option level, whatever each level makes of it
+	case 35, 36:
+		route := []string{world.RouteTcb, world.RouteQE}[t.Draw(2)]
+		if k == 36 {
+			route = []string{world.RoutePckCrl, world.RouteRootCrl}[t.Draw(2)]
+		}
+		w.PCS.FailFirst = map[string]int{route: 1 + t.Draw(2)}
+		r.Probe("route_answers_only_after_failed_requests")
+		return "first-requests-fail:" + route
 	// a response that carries, next to the genuine issuer-chain header, a second one whose name differs only
 	// in letter case (a hand-written getter can produce that; net/http cannot) with another hierarchy's chain:
 	// whatever the verifier makes of it, it makes the same of it every time
@@ -230,6 +240,7 @@ func c12Levels(r *core.Run) {
 	var logs [4][]world.Request
 	for level := O0; level <= O3; level++ {
 		w.PCS.Log = nil
+		w.PCS.ResetTransient()
 		o := verifyRaw(raw, mkOpts(level, w.PCS, pool, times))
 		acc[level] = o.Accepted()
 		logs[level] = append([]world.Request(nil), w.PCS.Log...)
@@ -248,6 +259,7 @@ func c12Levels(r *core.Run) {
 				w.PCS.Latency = world.LatencyProfile(prof)
 			}
 			for _, level := range []int{O1, O2} {
+				w.PCS.ResetTransient()
 				o := verifyRaw(raw, mkOpts(level, w.PCS, pool, times))
 				r.Eval()
 				if o.Accepted() != acc[level] {
@@ -267,6 +279,7 @@ func c12Levels(r *core.Run) {
 		w.PCS.Latency = nil
 		for i := 0; i < reps; i++ {
 			level := O1 + i%2
+			w.PCS.ResetTransient()
 			o := verifyRaw(raw, mkOpts(level, w.PCS, pool, times))
 			r.Eval()
 			if o.Accepted() != acc[level] {
